@@ -70,8 +70,11 @@ package decode
 
 //@ contract decodeNumber
 //@   needs ffv0 dstmon
+//@   at call decode.printer assert [C11.hex.le4 C02.hex.le4] (bvule (len arg0) (int 4))
+//@   at call decode.printer assert [C11.bytes.region] (or (= (len arg0) (int 0)) (and (= (rgn arg0) (rgn src@0)) (bvule (off src@0) (off arg0)) (bvule (bvadd (off arg0) (len arg0)) (bvadd (off src@0) (len src@0)))))
 //@   requires [dnf] isDnf
 //@   modifies tr.decode.printer
+//@   ensures [C11.nil-printer C02.nil-printer] (=> (= p 0) (= TRP (old TRP)))
 //@   let k (spec.numN B P (len src))
 //@   ensures [C02.number.err C03.number.err C08.dec.number.err C13.number.err] (= result.2 (ite (= k (int 0)) (errval errInvalidNumber) nil.Iface))
 //@   ensures [C02.number.rest C03.number.rest C08.dec.number.rest C13.number.rest] (=> (not (= k (int 0))) (= result.1 (ffv0.drop src k)))
@@ -96,7 +99,10 @@ package decode
 
 //@ contract decodeAngle
 //@   needs ffv0 dstmon
+//@   at call decode.printer assert [C11.hex.le4 C02.hex.le4] (bvule (len arg0) (int 4))
+//@   at call decode.printer assert [C11.bytes.region] (or (= (len arg0) (int 0)) (and (= (rgn arg0) (rgn src@0)) (bvule (off src@0) (off arg0)) (bvule (bvadd (off arg0) (len arg0)) (bvadd (off src@0) (len src@0)))))
 //@   modifies tr.decode.printer
+//@   ensures [C11.nil-printer C02.nil-printer] (=> (= p 0) (= TRP (old TRP)))
 //@   let k (spec.numN B P (len src))
 //@   ensures [C02.angle.err C03.angle.err] (= result.2 (ite (= k (int 0)) (errval errInvalidNumber) nil.Iface))
 //@   ensures [C02.angle.rest C03.angle.rest] (=> (not (= k (int 0))) (= result.1 (ffv0.drop src k)))
@@ -107,7 +113,10 @@ package decode
 
 //@ contract decodeArcToFlags
 //@   needs ffv0 dstmon
+//@   at call decode.printer assert [C11.hex.le4 C02.hex.le4] (bvule (len arg0) (int 4))
+//@   at call decode.printer assert [C11.bytes.region] (or (= (len arg0) (int 0)) (and (= (rgn arg0) (rgn src@0)) (bvule (off src@0) (off arg0)) (bvule (bvadd (off arg0) (len arg0)) (bvadd (off src@0) (len src@0)))))
 //@   modifies tr.decode.printer
+//@   ensures [C11.nil-printer C02.nil-printer] (=> (= p 0) (= TRP (old TRP)))
 //@   let k (spec.numN B P (len src))
 //@   ensures [C02.flags.err C03.flags.err] (= result.3 (ite (= k (int 0)) (errval errInvalidNumber) nil.Iface))
 //@   ensures [C02.flags.rest C03.flags.rest] (=> (not (= k (int 0))) (= result.2 (ffv0.drop src k)))
@@ -120,9 +129,12 @@ package decode
 
 //@ contract decodeDrawing
 //@   needs ffv0 dstmon
+//@   at call decode.printer assert [C11.hex.le4 C02.hex.le4] (bvule (len arg0) (int 4))
+//@   at call decode.printer assert [C11.bytes.region] (or (= (len arg0) (int 0)) (and (= (rgn arg0) (rgn src@0)) (bvule (off src@0) (off arg0)) (bvule (bvadd (off arg0) (len arg0)) (bvadd (off src@0) (len src@0)))))
 //@   requires [nonempty] (bvugt (len src) (int 0))
 //@   split thorough (bvlshr (at src (int 0)) #x04) in #x00 #x01 #x02 #x03 #x04 #x05 #x06 #x07 #x08 #x09 #x0a #x0b #x0c #x0d #x0e
 //@   modifies tr.ivg.Destination tr.decode.printer mon.dst
+//@   ensures [C11.nil-printer C02.nil-printer] (=> (= p 0) (= TRP (old TRP)))
 //@   ensures [C02.mono] (and (dst.mono (old mon.dst) mon.dst) (=> (= dst nil.Iface) (= mon.dst (old mon.dst))))
 //@   let op (at src (int 0))
 //@   let g (draw.group op)
@@ -137,7 +149,7 @@ package decode
 //@   ensures [C03.draw.rep.trunc] internal thorough (=> (and (bvult op #xb0) (not (= err nil.Iface))) (not (draw.repOK B (off phi:src) E g)))
 //@   ensures [C02.draw.rep.rest C03.draw.rep.rest] (=> (and (bvult op #xe0) (= err nil.Iface)) (and (= mf (fnid decodeDrawing)) (= (rgn src1) (rgn src)) (= (bvadd (off src1) (len src1)) E) (= (bvadd (off src1) (cap src1)) (bvadd P (cap src))) (bvult P (off src1)) (bvule (off src1) E)))
 //@   let E0 (bvadd (off src@0) (len src@0))
-//@   invariant 0 [draw.reps C03.draw.reps] (and (bvult (at src@0 (int 0)) #xe0) (= nReps (draw.reps (at src@0 (int 0)))) (bvsle (int 0) i) (bvsle i nReps) (= (rgn src) (rgn src@0)) (= E E0) (bvult (off src@0) (off src)) (bvule (off src) E0) (= (bvadd (off src) (cap src)) (bvadd (off src@0) (cap src@0))) (dst.mono (old mon.dst) mon.dst) (=> (= dst nil.Iface) (and (= TRD (old TRD)) (= mon.dst (old mon.dst)))))
+//@   invariant 0 [draw.reps C03.draw.reps] (and (bvult (at src@0 (int 0)) #xe0) (= nReps (draw.reps (at src@0 (int 0)))) (bvsle (int 0) i) (bvsle i nReps) (= (rgn src) (rgn src@0)) (= E E0) (bvult (off src@0) (off src)) (bvule (off src) E0) (= (bvadd (off src) (cap src)) (bvadd (off src@0) (cap src@0))) (dst.mono (old mon.dst) mon.dst) (=> (= dst nil.Iface) (and (= TRD (old TRD)) (= mon.dst (old mon.dst)))) (=> (= p 0) (= TRP (old TRP))))
 //@   at call ivg.Destination.AbsLineTo assert [C03.draw.dispatch.AbsLineTo] (and (bvult (draw.group (at src@0 (int 0))) #x02) (= arg0 coords[0]) (= arg1 coords[1]))
 //@   at call ivg.Destination.RelLineTo assert [C03.draw.dispatch.RelLineTo] (and (and (bvuge (draw.group (at src@0 (int 0))) #x02) (bvult (draw.group (at src@0 (int 0))) #x04)) (= arg0 coords[0]) (= arg1 coords[1]))
 //@   at call ivg.Destination.AbsSmoothQuadTo assert [C03.draw.dispatch.AbsSmoothQuadTo] (and (= (draw.group (at src@0 (int 0))) #x04) (= arg0 coords[0]) (= arg1 coords[1]))
@@ -173,9 +185,12 @@ package decode
 
 //@ contract decodeSetCReg
 //@   needs ffv0 dstmon
+//@   at call decode.printer assert [C11.hex.le4 C02.hex.le4] (bvule (len arg0) (int 4))
+//@   at call decode.printer assert [C11.bytes.region] (or (= (len arg0) (int 0)) (and (= (rgn arg0) (rgn src@0)) (bvule (off src@0) (off arg0)) (bvule (bvadd (off arg0) (len arg0)) (bvadd (off src@0) (len src@0)))))
 //@   requires [nonempty] (bvugt (len src) (int 0))
 //@   requires [opcode] (and (= opcode (at src (int 0))) (bvuge opcode #x80) (bvult opcode #xa8))
 //@   modifies tr.ivg.Destination tr.decode.printer mon.dst
+//@   ensures [C11.nil-printer C02.nil-printer] (=> (= p 0) (= TRP (old TRP)))
 //@   ensures [C02.mono] (and (dst.mono (old mon.dst) mon.dst) (=> (= dst nil.Iface) (= mon.dst (old mon.dst))))
 //@   ensures [C02.creg.err C03.creg.err] (= result.2 stylErr)
 //@   ensures [C02.creg.rest C03.creg.rest] (=> stylOK (and stylRest stylMode))
@@ -183,9 +198,12 @@ package decode
 
 //@ contract decodeSetNReg
 //@   needs ffv0 dstmon
+//@   at call decode.printer assert [C11.hex.le4 C02.hex.le4] (bvule (len arg0) (int 4))
+//@   at call decode.printer assert [C11.bytes.region] (or (= (len arg0) (int 0)) (and (= (rgn arg0) (rgn src@0)) (bvule (off src@0) (off arg0)) (bvule (bvadd (off arg0) (len arg0)) (bvadd (off src@0) (len src@0)))))
 //@   requires [nonempty] (bvugt (len src) (int 0))
 //@   requires [opcode] (and (= opcode (at src (int 0))) (bvuge opcode #xa8) (bvult opcode #xc0))
 //@   modifies tr.ivg.Destination tr.decode.printer mon.dst
+//@   ensures [C11.nil-printer C02.nil-printer] (=> (= p 0) (= TRP (old TRP)))
 //@   ensures [C02.mono] (and (dst.mono (old mon.dst) mon.dst) (=> (= dst nil.Iface) (= mon.dst (old mon.dst))))
 //@   ensures [C02.nreg.err C03.nreg.err] (= result.2 stylErr)
 //@   ensures [C02.nreg.rest C03.nreg.rest] (=> stylOK (and stylRest stylMode))
@@ -193,9 +211,12 @@ package decode
 
 //@ contract decodeStartPath
 //@   needs ffv0 dstmon
+//@   at call decode.printer assert [C11.hex.le4 C02.hex.le4] (bvule (len arg0) (int 4))
+//@   at call decode.printer assert [C11.bytes.region] (or (= (len arg0) (int 0)) (and (= (rgn arg0) (rgn src@0)) (bvule (off src@0) (off arg0)) (bvule (bvadd (off arg0) (len arg0)) (bvadd (off src@0) (len src@0)))))
 //@   requires [nonempty] (bvugt (len src) (int 0))
 //@   requires [opcode] (and (= opcode (at src (int 0))) (bvuge opcode #xc0) (bvult opcode #xc7))
 //@   modifies tr.ivg.Destination tr.decode.printer mon.dst
+//@   ensures [C11.nil-printer C02.nil-printer] (=> (= p 0) (= TRP (old TRP)))
 //@   ensures [C02.mono] (and (dst.mono (old mon.dst) mon.dst) (=> (= dst nil.Iface) (= mon.dst (old mon.dst))))
 //@   ensures [C02.start.err C03.start.err] (= result.2 stylErr)
 //@   ensures [C02.start.rest C03.start.rest] (=> stylOK (and stylRest stylMode))
@@ -203,9 +224,12 @@ package decode
 
 //@ contract decodeSetLOD
 //@   needs ffv0 dstmon
+//@   at call decode.printer assert [C11.hex.le4 C02.hex.le4] (bvule (len arg0) (int 4))
+//@   at call decode.printer assert [C11.bytes.region] (or (= (len arg0) (int 0)) (and (= (rgn arg0) (rgn src@0)) (bvule (off src@0) (off arg0)) (bvule (bvadd (off arg0) (len arg0)) (bvadd (off src@0) (len src@0)))))
 //@   requires [nonempty] (bvugt (len src) (int 0))
 //@   requires [opcode] (= (at src (int 0)) #xc7)
 //@   modifies tr.ivg.Destination tr.decode.printer mon.dst
+//@   ensures [C11.nil-printer C02.nil-printer] (=> (= p 0) (= TRP (old TRP)))
 //@   ensures [C02.mono] (and (dst.mono (old mon.dst) mon.dst) (=> (= dst nil.Iface) (= mon.dst (old mon.dst))))
 //@   ensures [C02.lod.err C03.lod.err] (= result.2 stylErr)
 //@   ensures [C02.lod.rest C03.lod.rest] (=> stylOK (and stylRest stylMode))
@@ -215,6 +239,7 @@ package decode
 //@   needs ffv0 dstmon
 //@   requires [nonempty] (bvugt (len src) (int 0))
 //@   modifies tr.ivg.Destination tr.decode.printer mon.dst
+//@   ensures [C11.nil-printer C02.nil-printer] (=> (= p 0) (= TRP (old TRP)))
 //@   ensures [C02.mono] (and (dst.mono (old mon.dst) mon.dst) (=> (= dst nil.Iface) (= mon.dst (old mon.dst))))
 //@   ensures [C02.styl.err C03.styl.err] (= result.2 stylErr)
 //@   ensures [C02.styl.rest C03.styl.rest] (=> stylOK (and stylRest stylMode))
@@ -223,8 +248,13 @@ package decode
 // ---- metadata (C13, C02)
 
 //@ contract decodeMetadataChunk
+//@   timeout 240
+//@   per-return
 //@   needs metadata
+//@   at call decode.printer assert [C11.hex.le4 C02.hex.le4] (bvule (len arg0) (int 4))
+//@   at call decode.printer assert [C11.bytes.region] (or (= (len arg0) (int 0)) (and (= (rgn arg0) (rgn src@0)) (bvule (off src@0) (off arg0)) (bvule (bvadd (off arg0) (len arg0)) (bvadd (off src@0) (len src@0)))))
 //@   modifies *m tr.decode.printer
+//@   ensures [C11.nil-printer C02.nil-printer] (=> (= p 0) (= TRP (old TRP)))
 //@   split (meta.mid B P E) in #x00000000 #x00000001
 //@   let cls (meta.err B P E)
 //@   ensures [C13.chunk.verdict C02.chunk.verdict C03.chunk.verdict] (= err (ite (= cls 0) nil.Iface (ite (= cls 1) (errval errInvalidMetadataChunkLength) (ite (= cls 2) (errval errInvalidMetadataIdentifier) (ite (= cls 3) (errval errUnsupportedMetadataIdentifier) (ite (= cls 4) (errval errInvalidViewBox) (ite (= cls 5) (errval errInvalidSuggestedPalette) (errval errInconsistentMetadataChunkLength))))))))
@@ -241,7 +271,7 @@ package decode
 //@   at call decodeNumber#1 assert [meta.vb.cp1] (and (= (rgn arg1) (rgn src@0)) (= (bvadd (off arg1) (len arg1)) E0) (= (bvadd (off arg1) (cap arg1)) (bvadd P0 (cap src@0))) (= (off arg1) (draw.p1 B0 (meta.p2 B0 P0 E0) E0)))
 //@   at call decodeNumber#2 assert [meta.vb.cp2] (and (= (rgn arg1) (rgn src@0)) (= (bvadd (off arg1) (len arg1)) E0) (= (bvadd (off arg1) (cap arg1)) (bvadd P0 (cap src@0))) (= (off arg1) (draw.p2 B0 (meta.p2 B0 P0 E0) E0)))
 //@   at call decodeNumber#3 assert [meta.vb.cp3] (and (= (rgn arg1) (rgn src@0)) (= (bvadd (off arg1) (len arg1)) E0) (= (bvadd (off arg1) (cap arg1)) (bvadd P0 (cap src@0))) (= (off arg1) (draw.p3 B0 (meta.p2 B0 P0 E0) E0)))
-//@   invariant 0 [meta.pal.cursor] (and (= (meta.mid B0 P0 E0) #x00000001) (ffv0.numOK B0 P0 E0) (ffv0.numOK B0 (meta.p1 B0 P0 E0) E0) (bvult (meta.p2 B0 P0 E0) E0) (= length:int (meta.palN1 bb)) (bvsle (int 0) i) (bvsle i length:int) (= (rgn src) (rgn src@0)) (= E E0) (= (bvadd (off src) (cap src)) (bvadd P0 (cap src@0))) (= (off src) (bvadd (meta.palP3 B0 P0 E0) (bvmul i (meta.palW bb)))) (bvule (off src) E0) (= lenSrcWant (bvsub (bvsub E0 (meta.p1 B0 P0 E0)) (meta.len B0 P0))))
+//@   invariant 0 [meta.pal.cursor] (and (=> (= p 0) (= TRP (old TRP))) (= (meta.mid B0 P0 E0) #x00000001) (ffv0.numOK B0 P0 E0) (ffv0.numOK B0 (meta.p1 B0 P0 E0) E0) (bvult (meta.p2 B0 P0 E0) E0) (= length:int (meta.palN1 bb)) (bvsle (int 0) i) (bvsle i length:int) (= (rgn src) (rgn src@0)) (= E E0) (= (bvadd (off src) (cap src)) (bvadd P0 (cap src@0))) (= (off src) (bvadd (meta.palP3 B0 P0 E0) (bvmul i (meta.palW bb)))) (bvule (off src) E0) (= lenSrcWant (bvsub (bvsub E0 (meta.p1 B0 P0 E0)) (meta.len B0 P0))))
 //@   invariant 0 [meta.pal.decode] (= decode (ite (= (meta.palFmt bb) #x00) (fnid buffer.decodeColor1) (ite (= (meta.palFmt bb) #x01) (fnid buffer.decodeColor2) (ite (= (meta.palFmt bb) #x02) (fnid buffer.decodeColor3Direct) (fnid buffer.decodeColor4)))))
 //@   invariant 0 [meta.pal.entries] (and (= m.ViewBox (old m.ViewBox)) (forall ((k!m (_ BitVec 64))) (=> (bvult k!m #x0000000000000040) (= (select m.Palette k!m) (ite (bvslt k!m i) (meta.palEntry B0 P0 E0 k!m) (select (old m.Palette) k!m))))))
 
@@ -250,8 +280,11 @@ package decode
 
 //@ contract decode
 //@   needs dstmon opaque:metadata opaque:ffv0
+//@   at call decode.printer assert [C11.hex.le4 C02.hex.le4] (bvule (len arg0) (int 4))
+//@   at call decode.printer assert [C11.bytes.region] (or (= (len arg0) (int 0)) (and (= (rgn arg0) (rgn src@0)) (bvule (off src@0) (off arg0)) (bvule (bvadd (off arg0) (len arg0)) (bvadd (off src@0) (len src@0)))))
 //@   requires [opts-nonnil] (forall ((k!o (_ BitVec 64))) (=> (bvult k!o (len opts)) (not (= (at opts k!o) 0))))
 //@   modifies *m tr.ivg.Destination tr.decode.printer mon.dst
+//@   ensures [C11.nil-printer C02.nil-printer] (=> (= p 0) (= TRP (old TRP)))
 //@   ensures [C02.mono] (and (dst.mono (old mon.dst) mon.dst) (=> (= dst nil.Iface) (= mon.dst (old mon.dst))))
 //@   ensures [C02.no-early C13.no-early] (=> (not (dst.started (old mon.dst))) (dst.clean mon.dst))
 //@   ensures [C13.metadata-only C02.metadata-only] (=> metadataOnly (= TRD (old TRD)))
@@ -264,8 +297,43 @@ package decode
 //@   step 0 [C13.chunk.step.ok C03.chunk.step.ok] (= (meta.err (arr src@0) (head (off src)) E0) 0)
 //@   step 0 [C13.chunk.step.next C03.chunk.step.next] (= (off src) (meta.dataEnd (arr src@0) (head (off src)) E0))
 //@   step 0 [C13.chunk.step.count C03.chunk.step.count] (= nMetadataChunks (bvsub (head nMetadataChunks) #x00000001))
-//@   invariant 0 [decode.chunks C02.chunks.no-event C13.chunks.no-event] (and (= TRD (old TRD)) (= mon.dst (old mon.dst)) (= (rgn src) (rgn src@0)) (= E E0) (bvule (off src) E0))
-//@   invariant 1 [decode.opts C14.opts.no-event] (and (= TRD (old TRD)) (= mon.dst (old mon.dst)))
-//@   invariant 2 [decode.sanitise C14.sanitise] (and (= TRD (old TRD)) (= mon.dst (old mon.dst)) (forall ((k!v (_ BitVec 64))) (=> (bvsle k!v rangeindex) (=> (bvult k!v #x0000000000000040) (spec.validPremul (select m.Palette k!v))))))
-//@   invariant 3 [decode.loop C02.loop] (and (or (= mf (fnid decodeStyling)) (= mf (fnid decodeDrawing))) (= (rgn src) (rgn src@0)) (= E E0) (bvule (off src) E0) (=> (not (dst.started (old mon.dst))) (dst.clean mon.dst)) (dst.mono (old mon.dst) mon.dst) (or (= dst nil.Iface) (dst.started mon.dst)) (=> (= dst nil.Iface) (and (= TRD (old TRD)) (= mon.dst (old mon.dst)))))
+//@   invariant 0 [decode.chunks C02.chunks.no-event C13.chunks.no-event] (and (=> (= p 0) (= TRP (old TRP))) (= TRD (old TRD)) (= mon.dst (old mon.dst)) (= (rgn src) (rgn src@0)) (= E E0) (bvule (off src) E0))
+//@   invariant 1 [decode.opts C14.opts.no-event] (and (=> (= p 0) (= TRP (old TRP))) (= TRD (old TRD)) (= mon.dst (old mon.dst)))
+//@   invariant 2 [decode.sanitise C14.sanitise] (and (=> (= p 0) (= TRP (old TRP))) (= TRD (old TRD)) (= mon.dst (old mon.dst)) (forall ((k!v (_ BitVec 64))) (=> (bvsle k!v rangeindex) (=> (bvult k!v #x0000000000000040) (spec.validPremul (select m.Palette k!v))))))
+//@   invariant 3 [decode.loop C02.loop] (and (=> (= p 0) (= TRP (old TRP))) (or (= mf (fnid decodeStyling)) (= mf (fnid decodeDrawing))) (= (rgn src) (rgn src@0)) (= E E0) (bvule (off src) E0) (=> (not (dst.started (old mon.dst))) (dst.clean mon.dst)) (dst.mono (old mon.dst) mon.dst) (or (= dst nil.Iface) (dst.started mon.dst)) (=> (= dst nil.Iface) (and (= TRD (old TRD)) (= mon.dst (old mon.dst)))))
 //@   step 3 [C02.progress C03.progress] (bvult (head (off src)) (off src))
+
+
+// ---- public entry points and option closures (C02, C11, C13, C14)
+
+//@ contract WithPalette$1
+//@   modifies m.Palette
+//@   ensures [C14.full] (= m.Palette *p)
+
+//@ contract WithColorAt$1
+//@   requires [stdlib] (not (= color.RGBAModel nil.Iface))
+//@   requires [index-in-range] (and (bvsle (int 0) *index) (bvslt *index (int 64)))
+//@   modifies m.Palette tr.color.Model
+//@   ensures [C14.index] (= m.Palette (store (old m.Palette) *index (select m.Palette *index)))
+
+//@ contract Disassemble$1
+//@   requires [C11.hex.le4 C02.hex.le4] (bvule (len b) (int 4))
+//@   modifies *w mem.u8 mem.Iface
+
+//@ contract Decode
+//@   needs dstmon opaque:metadata opaque:ffv0
+//@   requires [opts-nonnil] (forall ((k!o (_ BitVec 64))) (=> (bvult k!o (len opts)) (not (= (at opts k!o) 0))))
+//@   modifies tr.ivg.Destination mon.dst tr.decode.printer
+//@   ensures [C02.mono] (and (dst.mono (old mon.dst) mon.dst) (=> (= dst nil.Iface) (= mon.dst (old mon.dst))))
+//@   ensures [C02.no-early C13.no-early] (=> (not (dst.started (old mon.dst))) (dst.clean mon.dst))
+//@   ensures [C02.decode.no-printer C11.decode.no-printer] (= tr.decode.printer (old tr.decode.printer))
+
+//@ contract DecodeViewBox
+//@   needs dstmon opaque:metadata opaque:ffv0
+//@   modifies tr.ivg.Destination mon.dst tr.decode.printer
+//@   ensures [C13.viewbox-only C02.viewbox-only] (and (= tr.ivg.Destination (old tr.ivg.Destination)) (= tr.decode.printer (old tr.decode.printer)))
+
+//@ contract Disassemble
+//@   needs dstmon opaque:metadata opaque:ffv0
+//@   modifies tr.ivg.Destination mon.dst tr.decode.printer mem.u8 nextR
+//@   ensures [C11.no-destination C02.no-destination] (= tr.ivg.Destination (old tr.ivg.Destination))
